@@ -9,6 +9,7 @@ every op answers `<op specific> | <state dump>`.
 import OG.C14.Index
 import OG.C14.Align
 import OG.C14.Shared
+import OG.C14.Tier
 
 namespace OG.C14.Ix
 
@@ -212,3 +213,23 @@ def stepS (σ : Option St) (ws : List String) : Option St × String :=
   | _, _ => (σ, "bad-op")
 
 end OG.C14.Sh
+
+namespace OG.C14.Tier
+
+/-- `m <sid:tier:tierDur:endRel,…>` → `warm [sids] cold [sids]` (`FetchShardsNeedChangeStore`, now = 0). -/
+def stepM (ws : List String) : String :=
+  match ws with
+  | [items] =>
+    let parsed := (Ix.listOf items ",").mapM fun s =>
+      match s.splitOn ":" with
+      | [sid, tier, td, rel] => do some ((← sid.toNat?), (← tier.toNat?), (← td.toInt?), (← rel.toInt?))
+      | _ => none
+    match parsed with
+    | some l =>
+      let w := (l.filter fun x => move 0 x.2.1 x.2.2.1 x.2.2.2 == .toWarm).map (·.1)
+      let c := (l.filter fun x => move 0 x.2.1 x.2.2.1 x.2.2.2 == .toCold).map (·.1)
+      s!"warm [{Ix.joinNat (Ix.sortNat w)}] cold [{Ix.joinNat (Ix.sortNat c)}]"
+    | none => "bad-op"
+  | _ => "bad-op"
+
+end OG.C14.Tier
